@@ -1228,7 +1228,14 @@ class Engine(object):
     def abstract_call(self, e, argvals, st, why):
         txt = ast.unparse(e)
         self.abstracted.add("abstracted call: %s" % (txt if len(txt) < 140 else txt[:137] + "..."))
+        # builtins that only READ their arguments (their lazy results alias the elements, which the views do not track anyway)
+        fn_ = e.func if isinstance(e, ast.Call) else None
+        readonly = isinstance(fn_, ast.Name) and fn_.id in ("zip", "enumerate", "reversed", "iter", "len", "sorted", "tuple", "list", "frozenset", "set", "any", "all", "min", "max", "sum", "map", "filter", "isinstance", "repr", "str")
+        if readonly and fn_.id in ("map", "filter"):
+            readonly = False  # the mapped function may mutate
         for a in argvals:
+            if isinstance(a, VRef) and readonly:
+                continue
             if isinstance(a, VRef):
                 self.havoc_obj(a, st, "arg", kind_hint="opaque")
                 st.notes.append("imprecise: mutable object passed to abstracted call `%s` havocked" % txt[:60])
@@ -2040,6 +2047,13 @@ class Engine(object):
                 return sts
             if isinstance(v, VRef) and isinstance(st.heap[v.rid], ListObj):
                 raise Unsupported("unpacking a list view")
+            if isinstance(v, VOpaque):
+                # components of an uninterpreted value: uninterpreted values (a wrong arity would raise: path ends)
+                sts = [st]
+                for i_, t in enumerate(target.elts):
+                    comp = VOpaque(z3.Function("component:%d" % i_, Opaque, Opaque)(v.z), note="component %d" % i_)
+                    sts = [s2 for s in sts for s2 in self.assign(t, comp, s)]
+                return sts
             raise Unsupported("unpacking %s" % type(v).__name__)
         if isinstance(target, ast.Subscript) and not isinstance(target.slice, ast.Slice):
             outs = []
